@@ -1,4 +1,4 @@
-use super::field_utils::parse_party_identifier;
+use super::field_utils::{parse_name_and_address, parse_party_identifier};
 use super::swift_utils::{parse_bic, parse_swift_chars};
 use crate::errors::ParseError;
 use crate::traits::SwiftField;
@@ -120,33 +120,19 @@ impl SwiftField for Field58D {
         // If first line is short and there are more lines, it's likely a party identifier
         if let Some(first_line) = lines.first() {
             // Party identifier should start with / and be short (≤35 chars to account for the /)
-            if first_line.starts_with('/') && first_line.len() <= 35 && lines.len() > 1 {
+            if first_line.starts_with('/')
+                && (2..=35).contains(&first_line.len())
+                && lines.len() > 1
+            {
                 // Entire first line is party identifier (strip the leading / format prefix)
+                parse_swift_chars(&first_line[1..], "Field 58D party identifier")?;
                 party_identifier = Some(first_line[1..].to_string());
                 lines.remove(0);
             }
         }
 
         // Parse name and address lines (max 4 lines, max 35 chars each)
-        let mut name_and_address = Vec::new();
-        for (i, line) in lines.iter().enumerate() {
-            if i >= 4 {
-                break;
-            }
-            if line.len() > 35 {
-                return Err(ParseError::InvalidFormat {
-                    message: format!("Field 58D line {} exceeds 35 characters", i + 1),
-                });
-            }
-            parse_swift_chars(line, &format!("Field 58D line {}", i + 1))?;
-            name_and_address.push(line.to_string());
-        }
-
-        if name_and_address.is_empty() {
-            return Err(ParseError::InvalidFormat {
-                message: "Field 58D must contain name and address information".to_string(),
-            });
-        }
+        let name_and_address = parse_name_and_address(&lines, 0, "Field 58D")?;
 
         Ok(Field58D {
             party_identifier,
